@@ -30,7 +30,8 @@ RULE = (
     'within / across maps with and without des_id, remove, re-add, drop the harness reference, gc.collect(), grab a reachable '
     'object, nodeid set/del/pop, fixup set/del/clear/setdefault/construction from FixupValue lists, collapse_one of a '
     'generated preserve_ids=True template, constructor / parse calls that are rejected with the documented ValueError (Side '
-    'with != 3 points, Side/Solid/Entity.parse failing part-way) followed by further allocations.  After every command ids of all objects reachable from the maps are checked per kind.  '
+    'with != 3 points; Side/Solid/Entity/VisGroup/EntityGroup.parse of malformed blocks - bad plane / uaxis / dispinfo / '
+    'groupid / visgroupid / unknown block / bad output - whose ids equal ids of live objects, rejected part-way or tolerated) followed by further allocations.  After every command ids of all objects reachable from the maps are checked per kind.  '
     'Non-trivial = the history frees an id (remove / last reference dropped / nodeid or fixup deleted) and allocates one '
     'of that kind afterwards, or parses a tree with colliding / missing / non-positive ids, or builds fixups from a list '
     'with duplicate or non-positive indexes, or collapses a non-empty template; distinct = sha1 of the descriptor JSON'
@@ -42,8 +43,8 @@ ASSUMPTIONS = [
     'nodeid values that do not parse as int are ignored; fixup variable names are non-empty',
     'object lifetime = CPython reference counting plus the explicit gc commands (automatic GC disabled during a case)',
     'entity classes used in collapse_one exist in the shipped FGD database',
-    'rejected constructor calls are only those vmf.py rejects itself with ValueError (Side with != 3 points; parse of a plane '
-    'without 3 points, an unknown block or a group block outside worldspawn); "Exception ignored in __del__" noise is not judged',
+    'malformed blocks given to the parse classmethods may be rejected with ValueError or LookupError (NoKeyError) or tolerated - '
+    'neither is judged, only the ids of live objects afterwards; "Exception ignored in __del__" noise is not judged',
 ]
 LEVEL_TEXT = ('Generated-input search: thousands (quick) to hundreds of thousands (thorough) of allocation / removal / GC / copy / '
               'parse / collapse histories per family, uniqueness and positivity of ids checked after every command and in the exported '
@@ -68,13 +69,14 @@ FAMILIES: dict[str, list[str]] = {
     'alloc': ['new_ent', 'new_ent', 'new_solid', 'new_solid', 'new_side', 'new_vis', 'new_group', 'copy', 'copy', 'copy',
               'detach', 'reattach', 'drop', 'drop', 'gc', 'grab', 'bad_side', 'bad_parse'],
     # entities: remove, drop, gc, create again, re-add
-    'recycle': ['new_ent', 'new_ent', 'new_ent', 'remove_ent', 'remove_ent', 'drop', 'drop', 'gc', 'reattach', 'copy', 'grab'],
+    'recycle': ['new_ent', 'new_ent', 'new_ent', 'remove_ent', 'remove_ent', 'drop', 'drop', 'gc', 'reattach', 'copy', 'grab',
+                'clear_ent'],
     # maps that come from VMF.parse of documents with bad ids
     'parse': ['new_ent', 'new_solid', 'new_side', 'new_vis', 'new_group', 'copy', 'grab', 'grab', 'detach', 'drop', 'gc',
               'bad_side', 'bad_parse'],
     # node ids (judged: node ids only)
     'nodeid': ['new_node', 'new_node', 'new_node', 'set_node', 'set_node', 'del_node', 'remove_ent', 'remove_ent', 'reattach',
-               'copy', 'grab', 'drop', 'gc'],
+               'copy', 'grab', 'drop', 'gc', 'clear_ent'],
     # fixups (judged: fixup indexes only)
     'fixup': ['new_fix', 'new_fix', 'fix_set', 'fix_set', 'fix_set', 'fix_del', 'fix_del', 'fix_clear', 'fix_default',
               'copy', 'fix_many'],
@@ -82,7 +84,7 @@ FAMILIES: dict[str, list[str]] = {
     'collapse': ['new_ent', 'new_solid', 'new_vis', 'collapse', 'collapse', 'collapse', 'grab', 'detach', 'drop', 'copy'],
     'mixed': ['new_ent', 'new_ent', 'new_solid', 'new_side', 'new_vis', 'new_group', 'new_node', 'new_fix', 'copy', 'copy',
               'detach', 'remove_ent', 'remove_ent', 'reattach', 'drop', 'drop', 'gc', 'grab', 'set_node', 'del_node',
-              'fix_set', 'fix_del', 'collapse', 'bad_side', 'bad_parse'],
+              'fix_set', 'fix_del', 'collapse', 'bad_side', 'bad_parse', 'clear_ent'],
 }
 JUDGE = {
     'alloc': ('ent', 'solid', 'side', 'vis', 'group'),
@@ -582,43 +584,110 @@ def op_bad_side(w: World, a, b, c, d, e):
     w.flag('failed_ctor:side')
 
 
+BAD_PARSE_VARIANTS = [
+    'side:plane2', 'side:uaxis', 'side:dispinfo_nokeys', 'side:disp_power9', 'side:point_data',
+    'solid:groupid', 'solid:groupid', 'solid:third_side', 'solid:visgroupid_color',
+    'ent:bogus_block', 'ent:group_block', 'ent:groupid', 'ent:visgroupid', 'ent:hidden_bogus', 'ent:bad_output',
+    'vis:garbage', 'group:garbage',
+]
+
+
 def op_bad_parse(w: World, a, b, c, d, e):
-    """Side/Solid/Entity.parse of a tree that is rejected with ValueError after some sub-objects were already made."""
+    """Side/Solid/Entity/VisGroup/EntityGroup.parse of a malformed block whose ids (preferably) equal ids of LIVE objects.
+
+    Whether the block is rejected (ValueError / LookupError, after some sub-objects or the object itself already took
+    an id) or tolerated is not judged; what is judged is that the ids of the live objects stay unique afterwards.  A
+    tolerated block yields an ordinary detached object, which joins the pool.
+    """
     from srctools.keyvalues import Keyvalues as KV
-    from srctools.vmf import Entity, Side, Solid
+    from srctools.vmf import Entity, EntityGroup, Side, Solid, VisGroup
     mi = a % 2
     vmf = w.maps[mi]
+    collide = []
 
-    def idkv(n: int) -> list:
-        v = DOC_IDS[n % len(DOC_IDS)]
-        return [] if v is None else [KV('id', v)]
+    def idstr(kind: str, n: int):
+        """Every second id is the id of a live object of that kind."""
+        if n % 2 == 0:
+            ids = live_ids(vmf, kind)
+            if ids:
+                collide.append(kind)
+                return str(ids[(n // 2) % len(ids)])
+        return DOC_IDS[n % len(DOC_IDS)]
 
-    def side(n: int, good: bool):
-        return KV('side', idkv(n) + [KV('plane', '(0 0 0) (16 0 0) (0 16 0)' if good else '(0 0 0) (16 0 0)'),
-                                     KV('material', 'tools/toolsnodraw')])
-    kind = b % 4
-    if kind == 0:
-        call, tree, txt = Side.parse, side(c, False), 'Side.parse(<plane with 2 points>)'
-    elif kind == 1:
-        tree = KV('solid', idkv(c) + [side(d, True), side(e, True), side(d + 1, False)])
-        call, txt = Solid.parse, 'Solid.parse(<2 good sides, then a plane with 2 points>)'
-    else:
-        bad = KV('bogus_block', [KV('a', 'b')]) if kind == 2 else KV('group', idkv(e) + [KV('editor', [])])
-        tree = KV('entity', idkv(c) + [KV('classname', 'func_brush'),
-                                       KV('solid', idkv(d) + [side(e, True), side(e + 1, True)]), bad])
+    def idkv(kind: str, n: int, key: str = 'id') -> list:
+        v = idstr(kind, n)
+        return [] if v is None else [KV(key, v)]
+
+    def side(n: int, plane: str = '(0 0 0) (16 0 0) (0 16 0)', extra=()):
+        return KV('side', idkv('side', n) + [KV('plane', plane), KV('material', 'tools/toolsnodraw')] + list(extra))
+
+    def solid(n: int, m: int, extra=()):
+        return KV('solid', idkv('solid', n) + [side(m), side(m + 2)] + list(extra))
+
+    variant = BAD_PARSE_VARIANTS[b % len(BAD_PARSE_VARIANTS)]
+    kind, what = variant.split(':')
+    if kind == 'side':
+        call = Side.parse
+        if what == 'plane2':
+            tree = side(c, '(0 0 0) (16 0 0)')
+        elif what == 'uaxis':
+            tree = side(c, extra=[KV('uaxis', '[1 0 0 0] x')])
+        elif what == 'dispinfo_nokeys':
+            tree = side(c, extra=[KV('dispinfo', [KV('power', '2')])])
+        elif what == 'disp_power9':
+            tree = side(c, extra=[KV('dispinfo', [KV('power', '9')])])
+        else:
+            tree = side(c, extra=[KV('point_data', [KV('numpts', 'x'), KV('point', '0 a b c')])])
+    elif kind == 'solid':
+        call = Solid.parse
+        if what == 'groupid':
+            tree = solid(c, d, [KV('editor', [KV('color', '0 180 0'), KV('groupid', 'not-a-number')])])
+        elif what == 'third_side':
+            tree = solid(c, d, [side(d + 1, '(0 0 0) (16 0 0)')])
+        else:
+            tree = solid(c, d, [KV('editor', [KV('visgroupid', 'x'), KV('color', 'zz')])])
+    elif kind == 'ent':
         call = Entity.parse
-        txt = f'Entity.parse(<a good solid, then a {"bogus_block" if kind == 2 else "group"} block>)'
-    try:
-        call(vmf, tree)
-    except ValueError:
-        w.log(f'{txt} on m{mi}  -> ValueError (rejected)')
+        bad = {
+            'bogus_block': KV('bogus_block', [KV('a', 'b')]),
+            'group_block': KV('group', idkv('group', e) + [KV('editor', [])]),
+            'groupid': KV('editor', [KV('groupid', 'x')]),
+            'visgroupid': KV('editor', [KV('visgroupid', 'x')]),
+            'hidden_bogus': KV('hidden', [KV('bogus', 'x')]),
+            'bad_output': KV('connections', [KV('OnTrigger', 'a')]),
+        }[what]
+        tree = KV('entity', idkv('ent', c) + [KV('classname', 'func_brush'), solid(d, e), bad])
+    elif kind == 'vis':
+        call = VisGroup.parse
+        tree = KV('visgroup', [KV('name', 'n')] + idkv('vis', c, 'visgroupid') + [
+            KV('color', 'zz'), KV('visgroup', idkv('vis', d, 'visgroupid') + [KV('color', '1')])])
     else:
-        w.fail('bad_parse_accepted', f'{txt} did not raise ValueError')
+        call = EntityGroup.parse
+        tree = KV('group', idkv('group', c) + [KV('editor', [KV('color', 'zz'), KV('visgroupshown', 'q')])])
+    txt = f'{call.__qualname__}(m{mi}, <malformed: {what}; ids colliding with live: {sorted(set(collide)) or "none"}>)'
+    try:
+        obj = call(vmf, tree)
+    except (ValueError, LookupError):
+        w.log(f'{txt}  -> rejected')
+        w.failed_ctor = True
+        w.flag('failed_ctor:' + {'side': 'side_parse', 'solid': 'solid_parse', 'ent': 'ent_parse',
+                                 'vis': 'vis_parse', 'group': 'group_parse'}[kind])
+        if collide:
+            w.flag('failed_ctor_colliding_id')
+            if kind in collide:
+                w.flag('failed_ctor_colliding_id:' + kind)
+        for k in ('side', 'solid'):
+            w.note_free(k)
+    else:
+        w.pool.append([kind, obj, mi])
+        w.note_alloc(kind)
+        w.flag('malformed_tolerated:' + kind)
+        w.log(f'p{len(w.pool) - 1} = {txt}  -> tolerated, id {obj.id}')
+        del obj
     del tree, call
-    w.failed_ctor = True
-    w.flag('failed_ctor:' + ['side_parse', 'solid_parse', 'ent_parse', 'ent_parse'][kind])
-    for k in ('side', 'solid'):
-        w.note_free(k)
+    if e % 2:
+        gc.collect()
+        w.log('gc.collect()')
 
 
 def op_new_vis(w: World, a, b, c, d, e):
@@ -918,6 +987,31 @@ def op_del_node(w: World, a, b, c, d, e):
     w.flag('del_node')
 
 
+def op_clear_ent(w: World, a, b, c, d, e):
+    """Empty a live entity in place (clear / clear_keys / the deprecated keys setter): it stays alive and keeps its id."""
+    import warnings
+    i = w.pick('ent', a)
+    if i < 0:
+        return
+    ent = w.pool[i][1]
+    had_node = 'nodeid' in ent
+    how = b % 3
+    with warnings.catch_warnings():
+        warnings.simplefilter('ignore')
+        if how == 0:
+            ent.clear()
+            w.log(f'p{i}.clear()')
+        elif how == 1:
+            ent.clear_keys()
+            w.log(f'p{i}.clear_keys()')
+        else:
+            ent.keys = {'classname': 'info_target', 'targetname': 'kept'}
+            w.log(f'p{i}.keys = {{...}}')
+    if had_node:
+        w.note_free('node')
+    w.flag('clear_ent')
+
+
 # -- fixups
 def op_new_fix(w: World, a, b, c, d, e):
     from srctools.vmf import Entity, FixupValue
@@ -1054,7 +1148,7 @@ OPS = {
     'drop': op_drop, 'gc': op_gc, 'grab': op_grab, 'new_node': op_new_node, 'set_node': op_set_node, 'del_node': op_del_node,
     'new_fix': op_new_fix, 'fix_set': op_fix_set, 'fix_del': op_fix_del, 'fix_clear': op_fix_clear,
     'fix_default': op_fix_default, 'fix_many': op_fix_many, 'collapse': op_collapse,
-    'bad_side': op_bad_side, 'bad_parse': op_bad_parse,
+    'bad_side': op_bad_side, 'bad_parse': op_bad_parse, 'clear_ent': op_clear_ent,
 }
 
 
@@ -1141,7 +1235,10 @@ SUBCHECKS = [
     _sub('alloc', 700, 24000, 50, ('alloc_after_free:solid', 'alloc_after_free:side', 'desired_live_id', 'cross_map_copy',
                                    'copy_with_des_id', 'copy:ent', 'copy:solid', 'copy:side', 'copy:vis', 'copy:group',
                                    'drop_unreachable:solid', 'reattach:solid', 'failed_ctor_then_alloc',
-                                   'failed_ctor:side', 'failed_ctor:solid_parse', 'failed_ctor:ent_parse')),
+                                   'failed_ctor:side', 'failed_ctor:solid_parse', 'failed_ctor:ent_parse',
+                                   'failed_ctor:side_parse', 'failed_ctor_colliding_id:solid',
+                                   'failed_ctor_colliding_id:side', 'failed_ctor_colliding_id:ent',
+                                   'malformed_tolerated:vis', 'malformed_tolerated:group')),
     _sub('recycle', 700, 24000, 50, ('alloc_after_free:ent', 'remove_ent_inmap', 'drop_unreachable:ent', 'reattach:ent',
                                      'op:gc')),
     _sub('parse', 400, 14000, 50, ('parsed_colliding_ids', 'parsed_fixups', 'parsed_nodeid', 'grab:ent', 'grab:solid',
